@@ -47,7 +47,8 @@ namespace vw
         using impl_t = typename graph_t::impl_type;
         using arr_t = typename graph_t::data_array_type;
 
-        std::unique_ptr<G> grid;
+        std::unique_ptr<G> own_grid;  // declared before the graph: destroyed after it
+        G* grid = nullptr;            // own_grid or a grid shared with (and owned by) another world
         OpHandles handles;
         std::vector<int> handle_src;  // index into the full operator list of the spec
         std::unique_ptr<graph_t> graph;
@@ -56,9 +57,15 @@ namespace vw
 
         // build a world running ops[0..upto) ; snapshots kept only if keep_snapshots
         void build(const GridSpec& gs, const std::vector<OperatorSpec>& ops, std::size_t upto, bool keep_snapshots, bool force_seq,
-                   bool append_router_if_none)
+                   bool append_router_if_none, G* shared_grid = nullptr)
         {
-            grid = GridMaker<G>::make(gs);
+            if (shared_grid)
+                grid = shared_grid;
+            else
+            {
+                own_grid = GridMaker<G>::make(gs);
+                grid = own_grid.get();
+            }
             bool has_router = false;
             for (std::size_t i = 0; i < upto && i < ops.size(); ++i)
             {
@@ -433,6 +440,7 @@ namespace vw
             g.mesh_seed = r.next() % 1000000;
             g.mesh_holes = static_cast<int>(r.range(0, 2));
         }
+        g.share_grid = r.chance(0.4) ? 1 : 0;
         // status overrides
         if (r.chance(0.3))
         {
@@ -484,14 +492,72 @@ namespace vw
         };
         const double psnap = mode == MODE_C16 ? 0.7 : (mode == MODE_C08 ? 0.3 : 0.1);
         const bool want_single = mode == MODE_C19 || mode == MODE_C10;
-        if (r.chance(0.35))
+        // Besides the usual shapes below, some worlds get a free-form sequence: any 1..5 operators that the
+        // library's own rules accept (a router somewhere; the spanning-tree resolver only on a single-direction
+        // state; graph snapshots only once a direction is defined), e.g. {multi, single}, {single, pflood},
+        // {single, mst, mst}. Validity is decided here, independently of the library (C20 is not claimed).
+        bool free_form = false;
+        if (mode != MODE_C10 && r.chance(0.15))
+        {
+            for (int attempt = 0; attempt < 30 && !free_form; ++attempt)
+            {
+                std::vector<OperatorSpec> cand;
+                int dir = 0, sid = 0;
+                bool updated = false, ok = true, any_multi = false;
+                long len = r.range(1, 5);
+                for (long k = 0; k < len && ok; ++k)
+                {
+                    OperatorSpec s;
+                    s.kind = static_cast<int>(r.below(5));
+                    switch (s.kind)
+                    {
+                        case O_SINGLE:
+                            s.threads = r.chance(0.2) ? static_cast<int>(r.range(2, 16)) : 0;
+                            dir = 1;
+                            updated = true;
+                            break;
+                        case O_MULTI:
+                            s.exponent = r.chance(0.3) ? 0.0 : 0.5 * static_cast<double>(r.range(1, 4));
+                            dir = 2;
+                            updated = true;
+                            any_multi = true;
+                            break;
+                        case O_PFLOOD:
+                            break;
+                        case O_MST:
+                            if (dir != 1)
+                                ok = false;
+                            s.mst_method = static_cast<int>(r.below(2));
+                            s.mst_route = static_cast<int>(r.below(2));
+                            break;
+                        default:
+                            s.name = "s" + std::to_string(sid++);
+                            s.save_graph = (dir != 0 && r.chance(0.7)) ? 1 : 0;
+                            s.save_elev = (!s.save_graph || r.chance(0.4)) ? 1 : 0;
+                            break;
+                    }
+                    cand.push_back(s);
+                }
+                if (ok && updated && dir != 0 && !(mode == MODE_C19 && (any_multi || dir != 1)))
+                {
+                    w.ops = cand;
+                    free_form = true;
+                }
+            }
+        }
+        if (free_form)
+            snap_id = 100;
+        if (!free_form && r.chance(0.35))
         {
             OperatorSpec s;
             s.kind = O_PFLOOD;
             w.ops.push_back(s);
             add_snap(false, psnap);
         }
-        if (!want_single && r.chance(0.25))
+        if (free_form)
+        {
+        }
+        else if (!want_single && r.chance(0.25))
         {
             OperatorSpec s;
             s.kind = O_MULTI;
@@ -543,15 +609,17 @@ namespace vw
 
         auto push_base = [&](std::vector<std::size_t> b)
         {
-            // hand the set over in a random order (order must not matter)
+            base = b;
+            // the list handed over may repeat entries (set semantics) and comes in a random order
+            if (!b.empty() && r.chance(0.2))
+                b.push_back(b[r.below(b.size())]);
             for (std::size_t i = b.size(); i > 1; --i)
                 std::swap(b[i - 1], b[r.below(i)]);
             HOp h;
             h.kind = H_SET_BASE;
             h.levels = b;
             w.history.push_back(h);
-            base = b;
-            base_history.push_back(b);
+            base_history.push_back(base);
         };
         if (!domain_ok(adj, mask, base, true))
         {
@@ -611,7 +679,7 @@ namespace vw
                 case H_SET_MASK:
                 {
                     std::vector<uint8_t> m(n, 0);
-                    double frac = r.chance(0.3) ? 0.0 : 0.3 * r.unit();
+                    double frac = r.chance(0.3) ? 0.0 : (r.chance(0.75) ? 0.3 : 0.8) * r.unit();
                     std::size_t unmasked = n;
                     for (std::size_t i = 0; i < n; ++i)
                         if (r.chance(frac) && unmasked > 1)
@@ -683,6 +751,8 @@ namespace vw
                     static const long lvl[] = { 0, 0, 1, 2, 4, 10, 1000 };
                     h.c = lvl[r.below(7)];
                     h.d = static_cast<long>(r.below(2));
+                    if (h.a == 1 && r.chance(0.4))
+                        h.d = 2;  // depth_upstream: supported by the sequential path only
                     if (!graph_snaps.empty() && r.chance(mode == MODE_C16 ? 0.8 : 0.25))
                         h.name = graph_snaps[r.below(graph_snaps.size())];
                     w.history.push_back(h);
@@ -760,6 +830,9 @@ namespace vw
         world_t main;
         main.build(gs, w.ops, w.ops.size(), true, false, false);
         const std::size_t n = main.grid->size();
+        G* const shared = gs.share_grid ? main.grid : nullptr;
+        if (shared)
+            ++C["p.worlds_sharing_one_grid"];
         // adjacency from a scratch grid: the worlds' own neighbour caches must stay cold until the
         // library itself (routers, possibly worker threads) fills them
         std::vector<std::vector<std::size_t>> adj;
@@ -773,7 +846,7 @@ namespace vw
         if (mode == MODE_C10)
         {
             twin = std::make_unique<world_t>();
-            twin->build(gs, w.ops, w.ops.size(), true, true, false);
+            twin->build(gs, w.ops, w.ops.size(), true, true, false, shared);
         }
         struct Prefix
         {
@@ -799,7 +872,7 @@ namespace vw
                     {
                         p.world = std::make_unique<world_t>();
                         // same operators (same thread counts) as the main graph, minus snapshots
-                        p.world->build(gs, w.ops, i, false, false, true);
+                        p.world->build(gs, w.ops, i, false, false, true, shared);
                     }
                     prefixes.push_back(std::move(p));
                 }
@@ -894,7 +967,8 @@ namespace vw
                     ops[i].mst_method = cur_method[i];
                     ops[i].mst_route = cur_route[i];
                 }
-                fresh.build(gs, ops, ops.size(), true, false, false);
+                // "fresh" = new graph and operators; with share_grid on the same (used, warm-cache) grid object
+                fresh.build(gs, ops, ops.size(), true, false, false, shared);
                 if (!mask.empty())
                     fresh.set_mask(mask);
                 std::vector<std::size_t> b = base;
@@ -1170,7 +1244,7 @@ namespace vw
                 }
                 case H_BASINS:
                 {
-                    if (!main.has_result || !main.graph->single_flow() || !main.graph->impl().single_flow())
+                    if (!main.has_result || !main.graph->single_flow())
                         break;
                     auto labels = main.graph->basins();
                     ++C["p.basins_calls"];
@@ -1259,7 +1333,7 @@ namespace vw
                     if (!main.has_result)
                         break;
                     ++salt;
-                    const int nthreads = static_cast<int>(std::max<long>(1, std::min<long>(16, h.a)));
+                    const int nthreads = h.d == 2 ? 1 : static_cast<int>(std::max<long>(1, std::min<long>(16, h.a)));
                     const bool on_snap = !h.name.empty();
                     bool snap_ok = false;
                     for (auto& p : prefixes)
